@@ -13,7 +13,7 @@ import ast
 from typing import Dict, List, Optional, Set, Tuple
 
 from ..model import Program, AnalysisError, FuncInfo, ClassInfo, walk_local, dotted
-from ..report import RuleResult
+from ..report import RuleResult, guard
 from ..astutil import src, site, calls_in, call_name, is_self_attr, is_super_call, kwarg
 from ..callgraph import closure
 from ..cfg import CFG
@@ -917,4 +917,4 @@ def _shared_default(prog):
 
 def run(prog: Program, tier: str) -> List[RuleResult]:
     c1 = carry1(prog)
-    return [c1, carry2(prog), ep_handshake(prog), domain_cache(prog), reset_with_evaluation(prog), carry_shared(prog, c1), carry_abandon(prog), carry_memo_up(prog), shared_tree(prog), carry_reset_reach(prog), carry_eval_parent(prog), _shared_default(prog), live_iter(prog), cache_private(prog)]
+    return [c1, guard(lambda: carry2(prog)), guard(lambda: ep_handshake(prog)), guard(lambda: domain_cache(prog)), guard(lambda: reset_with_evaluation(prog)), guard(lambda: carry_shared(prog, c1)), guard(lambda: carry_abandon(prog)), guard(lambda: carry_memo_up(prog)), guard(lambda: shared_tree(prog)), guard(lambda: carry_reset_reach(prog)), guard(lambda: carry_eval_parent(prog)), guard(lambda: _shared_default(prog)), guard(lambda: live_iter(prog)), guard(lambda: cache_private(prog))]
